@@ -47,6 +47,39 @@ def cases(draw):
                     "noise": {"seed": draw(st.integers(0, 2 ** 20)), "mult": draw(st.sampled_from([0.03, 0.1])), "add": 0.0},
                     "up": up, "np_seed": 0, "tags": ["noise-floor", "restarts:" + restart]}
     c = draw(sc.scenarios(PROF))
+    sub = draw(st.integers(0, 19))
+    if sub <= 1 and c["fam"] != "script":
+        # non-finite objectives (from some evaluation on, or everywhere): the antecedent of 'a success flag is never attached to
+        # a non-finite objective' needs runs whose best value is inf/NaN, in every restart flavour
+        c["fault"] = {"k": draw(st.sampled_from([1, 1, 2, 3, c["npt"] + 1])), "kind": draw(st.sampled_from(["inf", "inf", "big", "nan", "-inf"])),
+                      "comp": draw(st.sampled_from(["all", "all", 0])), "sticky": True}
+        if draw(st.booleans()):
+            c["up"]["restarts.use_restarts"] = True
+            c["up"]["restarts.use_soft_restarts"] = draw(st.booleans())
+            c["up"]["restarts.max_unsuccessful_restarts"] = draw(st.sampled_from([1, 2, 3]))
+            c["up"].pop("restarts.increase_npt", None)
+            c["up"].pop("restarts.max_npt", None)
+            c["up"].pop("restarts.increase_npt_amt", None)
+        c["maxfun"] = draw(st.sampled_from([10, 30, 60]))
+        c["tags"] = sorted(set([t for t in c["tags"] if not t.startswith("restarts:")] + ["nonfinite-objective"]))
+        return c
+    if sub <= 4 and c["n"] >= 2 and not c.get("reg") and not c["up"].get("growing.ndirs_initial"):
+        # budget windows: soft restarts that append several points (or several samples each) with the budget ending anywhere -
+        # 'max-evaluations warning implies nf == maxfun' must hold wherever the budget runs out inside a restart
+        n = c["n"]
+        c["up"]["restarts.use_restarts"] = True
+        c["up"].pop("restarts.use_soft_restarts", None)
+        c["up"]["restarts.increase_npt"] = True
+        c["up"]["restarts.max_npt"] = (n + 1) * (n + 2) // 2
+        c["up"]["restarts.increase_npt_amt"] = draw(st.sampled_from([1, 2, 3]))
+        c["up"].pop("restarts.max_unsuccessful_restarts", None)
+        c["up"].pop("init.run_in_parallel", None)
+        rb = c["rhobeg"] if c["rhobeg"] is not None else (0.1 if c["scaling"] else 0.1 * max(max(abs(v) for v in c["x0"]), 1.0))
+        c["rhoend"] = rb * 10.0 ** -draw(st.sampled_from([1, 1, 2]))
+        c["maxfun"] = draw(st.integers(c["npt"] + 2, 110))
+        if draw(st.integers(0, 2)) == 0:
+            c["nsamples"] = {"const": draw(st.sampled_from([2, 3]))}
+        c["tags"] = sorted(set([t for t in c["tags"] if not t.startswith("restarts:")] + ["budget-window", "restarts:soft", "increase_npt"]))
     if c["fam"] != "script" and draw(st.integers(0, 2)) == 0:
         lo, up = sc.user_bounds(c)
         x0 = np.minimum(np.maximum(np.array(c["x0"], dtype=float), lo), up)
